@@ -130,9 +130,15 @@ class Decl:
         if k == "subclass":
             # `class Span(Length): pass` is a new base type of its own,
             # without reference unit and without units
+            # with a reference-unit symbol of its own (`class Altitude(
+            # Length, ref_unit_symbol='FL')`) it is a base type with
+            # reference unit -- and without the parent's quantum
             if p["parent"] not in w.types:
                 raise KeyError(p["parent"])
-            return w.declare_base_type(p["name"])
+            t = w.declare_base_type(p["name"], p.get("ref"))
+            if p.get("ref"):
+                p["ref_eff"] = p["ref"]
+            return t
         if k == "derived":
             t = w.declare_derived_type(p["name"], p["items"], p.get("ref"),
                                        p.get("quantum"))
@@ -194,8 +200,11 @@ class Decl:
         p = self.p
         k = self.kind
         if k == "subclass":
+            kw = {}
+            if p.get("ref"):
+                kw["ref_unit_symbol"] = ["s", p["ref"]]
             return [{"cls": {"name": p["name"], "base": V(p["parent"]),
-                             "kw": {}}, "id": p["name"], "k": key}]
+                             "kw": kw}, "id": p["name"], "k": key}]
         if k in ("base", "derived"):
             kw = {}
             if p.get("ref") is not None:
@@ -346,10 +355,20 @@ def random_plan(rng, money=False, max_base=4, max_derived=4, max_units=4,
                 tletter[name] = L
                 next(letters)
                 break
-    if subclasses and rng.random() < 0.25:
+    if subclasses and rng.random() < 0.3:
         name = names.pop()
-        add(Decl("subclass", name=name,
-                 parent=rng.choice(list(w.types))))
+        if rng.random() < 0.5:
+            # a subclass with a reference unit (and later units) of its own
+            L = alphabet[len(tletter)]
+            qt_ = [n for n, t_ in w.types.items() if t_.quantum is not None]
+            par = rng.choice(qt_) if qt_ and rng.random() < 0.6 \
+                else rng.choice(list(w.types))
+            if add(Decl("subclass", name=name, ref=L + "0", parent=par)):
+                tletter[name] = L
+                next(letters)
+        else:
+            add(Decl("subclass", name=name,
+                     parent=rng.choice(list(w.types))))
     # units
     counter = {}
 
